@@ -249,18 +249,23 @@ static bool upipe_rtp_pcm_unpack_handle(struct upipe *upipe, struct uref *uref,
         return true;
     }
 
-    const uint8_t *src = NULL;
     int32_t *dst = NULL;
-    int size = -1;
-    uref_block_read(uref, 0, &size, &src);
     ubuf_sound_write_int32_t(ubuf, 0, -1, &dst, 1);
 
     samples *= upipe_rtp_pcm_unpack->channels;
-    for (int i = 0; i < samples; i++)
-        dst[i] = (src[3*i] << 24) | (src[3*i+1] << 16) | (src[3*i+2] << 8);
+    for (int i = 0; i < samples; i++) {
+        /* the payload may be made of several segments */
+        uint8_t buf[3];
+        const uint8_t *src = uref_block_peek(uref, 3 * i, 3, buf);
+        if (unlikely(src == NULL)) {
+            dst[i] = 0;
+            continue;
+        }
+        dst[i] = ((uint32_t)src[0] << 24) | (src[1] << 16) | (src[2] << 8);
+        uref_block_peek_unmap(uref, 3 * i, buf, src);
+    }
 
     ubuf_sound_unmap(ubuf, 0, -1, 1);
-    uref_block_unmap(uref, 0);
 
     uref_attach_ubuf(uref, ubuf);
 
